@@ -29,7 +29,7 @@ def RelMap.WF (m : RelMap) : Prop :=
   m.mappings.length ≤ relmapMax ∧ m.unused.length = 8 * (relmapMax - m.mappings.length) ∧
   m.crc < 2 ^ 32 ∧ m.pad.length = 4 ∧ ∀ e ∈ m.mappings, e.1 < 2 ^ 32 ∧ e.2 < 2 ^ 32
 
-instance (m : RelMap) : Decidable m.WF := by unfold RelMap.WF; infer_instance
+instance RelMap.decWF (m : RelMap) : Decidable m.WF := by unfold RelMap.WF; infer_instance
 
 /-- lookups: first stored match or 0 -/
 def filenodeOf (ms : List (Nat × Nat)) (oid : Nat) : Nat :=
